@@ -87,6 +87,7 @@ def worker(job):
         out['pre_sat'] = getattr(cx, 'pre_sat', '?')
         out['notes'] = cx.notes
         out['assumed'] = sorted(cx.assumed_used)
+        out['trusted_clauses'] = sorted(cx.trusted_clauses)
         out['opaque'] = sorted(cx.opaque_calls)
         out['erased'] = sorted(cx.erased)
         out['inlined'] = sorted(cx.inlined)
@@ -274,6 +275,7 @@ def main(argv):
     funcs_ev = []
     assumed = set()
     opaque = set()
+    trusted = set()
     erased = set()
     notes = []
     for o in outs:
@@ -283,6 +285,7 @@ def main(argv):
                          'state_merges': o.get('merges')})
         assumed |= set(o.get('assumed') or [])
         opaque |= set(o.get('opaque') or [])
+        trusted |= set(o.get('trusted_clauses') or [])
         erased |= set(o.get('erased') or [])
         for nn in (o.get('notes') or []):
             notes.append('%s: %s' % (o['fn'].split('/')[-1], nn))
@@ -305,6 +308,7 @@ def main(argv):
         'sequential execution of each function; locks, channel sends and go statements erased: %s' % (sorted(erased) or 'none'),
         'opaque callees (no contract; heap havocked except non-escaping locals, no panic assumed): %s' % (sorted(opaque) or 'none'),
         'assumed (trusted) contracts used: %s' % (sorted(assumed) or 'none'),
+        'postconditions stated but not proved (assumed): %s' % (sorted(trusted) or 'none'),
         'assumed stdlib contract files sha256 %s' % h.hexdigest()[:16],
         'termination only where a decreases clause is given',
     ] + notes[:40]
